@@ -292,8 +292,11 @@ def yhat_estimates(x, y, z, F, alpha):
             continue
         d = float(z[lo + best]) - float(y[lo + best])
         w, wlo, whi = bands[best]
-        a, b = d / whi, d / wlo
-        out.append((d / w, min(a, b), max(a, b), lo + best))
+        # the displacement is only known to the rounding of the sample it was added to (a shift of 1e-16 vanishes
+        # in a sample of 2.0 but still moves its zero-valued neighbours and, through the end weights, the fixed points)
+        derr = EPS * (abs(float(z[lo + best])) + abs(float(y[lo + best])))
+        corners = [(d + e) / ww for e in (-derr, derr) for ww in (wlo, whi)]
+        out.append((d / w, min(corners), max(corners), lo + best))
     return out
 
 
